@@ -156,6 +156,13 @@ fn main() {
         "replay" => cmd_replay(&args),
         "one" => cmd_one(&args),
         "survey" => cmd_survey(&args),
+        "digest" => {
+            let profile = args.pos.first().cloned().unwrap_or_default();
+            let seed: u64 = args.pos.get(1).and_then(|s| s.parse().ok()).unwrap_or(1);
+            let o = run_profile_seed(profile, seed, false);
+            report(&format!("DIGEST {:016x} {}", o.log_digest, o.violation.is_some()));
+            0
+        }
         "selftest-determinism" => cmd_selftest(&args),
         _ => {
             report("usage: btcsim check <Cxx> [--tier quick|thorough] | replay <file> | one <Cxx> <seed> | selftest-determinism");
@@ -347,12 +354,28 @@ fn cmd_selftest(args: &Args) -> i32 {
         let a = run_batch_digests(p, master, n, workers_a);
         let b = run_batch_digests(p, master, n, workers_b);
         let c = run_batch_digests(p, master, n, workers_b);
+        // a few runs again in a fresh process each
+        let mut cross_bad = vec![];
+        for i in 0..n.min(4) {
+            let seed = derive_seed(master, i);
+            let exe = std::env::current_exe().unwrap();
+            let out = std::process::Command::new(exe).arg("digest").arg(p).arg(seed.to_string()).output();
+            let s = out.map(|o| String::from_utf8_lossy(&o.stdout).to_string()).unwrap_or_default();
+            let want = a.get(&i).map(|(d, v)| format!("DIGEST {:016x} {}", d, v)).unwrap_or_default();
+            if !s.contains(&want) {
+                cross_bad.push(i);
+            }
+        }
+        if !cross_bad.is_empty() {
+            bad += 1;
+            report(&format!("DETERMINISM-FAILURE profile={p} fresh-process digests differ for run indices {:?}", cross_bad));
+        }
         if a != b || b != c {
             bad += 1;
             let diff: Vec<u64> = (0..n).filter(|i| a.get(i) != b.get(i) || b.get(i) != c.get(i)).collect();
             report(&format!("DETERMINISM-FAILURE profile={p} run indices {:?}", diff));
         } else {
-            report(&format!("determinism ok profile={p} runs={n} (1 worker == 16 workers == repeat)"));
+            report(&format!("determinism ok profile={p} runs={n} (1 worker == 16 workers == repeat; first {} also in a fresh process each)", n.min(4)));
         }
     }
     if bad > 0 {
